@@ -368,6 +368,28 @@ var ops = []op{
 		s2 := g.GetSharedKey(y, new(big.Int).SetBytes(px))
 		return fmt.Sprintf("ok %s %s agree=%v", digest(px), digest(s1), bytes.Equal(s1, s2))
 	}},
+	{"DH-peer-value-from-the-wire", func(w *world) string {
+		// the peer's KE data is whatever arrived: shorter or longer than the modulus, 0, 1, p-1, >= p, all ones
+		g := dh.StrToType(dhNames[w.r.Intn(2)])
+		x := new(big.Int).SetBytes(rbytes(w.r, 24))
+		n := len(g.GetPublicValue(big.NewInt(1)))
+		var peer []byte
+		switch w.r.Intn(6) {
+		case 0:
+			peer = rbytes(w.r, n+1+w.r.Intn(8))
+		case 1:
+			peer = bytes.Repeat([]byte{0xff}, n)
+		case 2:
+			peer = bytes.Repeat([]byte{0xff}, n+1)
+		case 3:
+			peer = rbytes(w.r, 1+w.r.Intn(n))
+		case 4:
+			peer = []byte{byte(w.r.Intn(3))}
+		default:
+			peer = append([]byte{0xff, 0xff, 0xff, 0xff, 0xff, 0xff, 0xff, 0xff, 0xff}, rbytes(w.r, n-9)...)
+		}
+		return "ok " + digest(g.GetSharedKey(x, new(big.Int).SetBytes(peer)))
+	}},
 	{"transform-mapping", func(w *world) string {
 		var sb strings.Builder
 		for _, n := range encrNames {
